@@ -140,6 +140,16 @@ pub fn check(base: &str, marked: &str, w: usize, cx: &mut Cx) {
             return;
         }
     }
+    // markers appear in document order (except across side-by-side table cells): the markers
+    // of elements with visible text, in output order, are the targets in document order
+    if !table {
+        let visible: Vec<&String> = targets.iter().filter(|(_, t)| position(&d, *t).1 > 0).map(|(n, _)| n).collect();
+        let got: Vec<&String> = marks.iter().map(|m| &m.0).filter(|n| visible.contains(n)).collect();
+        if got != visible {
+            fail(cx, "markers are not in document order", json!({"document_order": visible, "output_order": got, "lines": format!("{lines:?}")}));
+            return;
+        }
+    }
     if any_visible {
         cx.set_case_hash(h64_parts(&[marked.as_bytes(), &w.to_le_bytes()]));
         cx.nontrivial();
